@@ -1,5 +1,7 @@
 """Realise state recipes (gen.recipes) into live aggregators."""
 
+import os
+
 from .common import lib
 from .spec import build
 
@@ -24,7 +26,8 @@ def realize(spec, rec, qhook=None):
         h = h * rec["scale"]
     if rec.get("copy"):
         h = h.copy()
-    if rec.get("pickle"):
+    if rec.get("pickle") and not os.environ.get("VP_HG_INSTRUMENTED"):
+        # (skipped under Atheris: instrumented code objects cannot be marshalled, so no library function pickles there)
         import pickle  # noqa: PLC0415
 
         h = pickle.loads(pickle.dumps(h))
